@@ -33,7 +33,7 @@ class Check(Prop):
     RULE = ("cases = (receiver, cursor form). Receivers: a literal or constructor of 11 configured classes (Integer, String incl. a "
             "capitalised literal, Float, Array, Hash, Symbol, Range, NilClass, Bool, GPIO), instances and classes of a small user "
             "hierarchy (superclass, included module, private methods, class methods, an unrelated class), bound to a variable or used "
-            "directly; cursor forms: `recv.` followed by another statement, `recv.` as the last line, preceded by 0-3 unrelated statements. "
+            "directly; cursor forms: `recv.` followed by another statement, `recv.` as the last line, preceded by 0-3 unrelated statements; half of the generated cases take an instance or class receiver out of a generated hierarchy (C16's generator: superclass chains, included/extended modules, private/protected sections, class methods). "
             "Oracle for `--suggest --row=<cursor row>`: MUST (instance methods of the receiver's class and of its configured/user "
             "ancestors; class methods for a class receiver) is a subset of the listed names, and no listed name is in MUST_NOT (methods "
             "that only unrelated classes define, private methods of other classes, instance methods for class receivers of user classes "
@@ -80,11 +80,30 @@ class Check(Prop):
     def explicit(self):
         return self.all_cases()
 
+    def hier_strategy(self):
+        """Receivers from generated user hierarchies (C16's generator): instance and class receivers of every class."""
+        from . import c16
+
+        @st.composite
+        def case(draw):
+            h = draw(c16.hierarchy())
+            h["wrap"] = None
+            h["probes"] = []
+            k = draw(st.integers(0, len(h["classes"]) - 1))
+            return {"kind": "hier", "h": h, "k": k, "side": draw(st.sampled_from(["inst", "inst", "class"])), "form": "dot-next", "bind": True, "pre": 0,
+                    "recv": h["classes"][k]["name"], "cls": h["classes"][k]["name"]}
+        return case()
+
     def strategy(self):
+        return st.one_of(self.fixed_strategy(), self.hier_strategy())
+
+    def fixed_strategy(self):
         cases = list(self.all_cases())
         return st.tuples(st.sampled_from(cases), st.integers(0, 3), st.booleans()).map(lambda t: dict(t[0], pre=t[1], bind=t[2] if t[0]["kind"] != "user-class" else False))
 
     def sample(self, case):
+        if case.get("kind") == "hier":
+            return {"hierarchy_class": case["cls"], "side": case["side"]}
         return {"program": self.render(case)[0], "row": self.render(case)[1]}
 
     @staticmethod
@@ -102,7 +121,72 @@ class Check(Prop):
             lines.append("zz = 1")
         return "\n".join(lines) + "\n", row
 
+    def evaluate_hier(self, case, rt):
+        from . import c16
+        h = case["h"]
+        src0, _ = c16.render_and_model(dict(h, probes=[]))
+        lines = src0.rstrip("\n").split("\n")
+        cls = {d["name"]: d for d in h["classes"]}
+        mods = {m["name"]: m for m in h["mods"]}
+        c = h["classes"][case["k"]]["name"]
+
+        def anc(x):
+            out, seen = [], set()
+            while x and x not in seen:
+                seen.add(x)
+                out.append(x)
+                x = cls[x]["parent"]
+            return out
+        inst_pub, inst_all, klass = set(), set(), set()
+        for a in anc(c):
+            for name, l, v in cls[a]["imeths"]:
+                inst_all.add(name)
+                if v == "public":
+                    inst_pub.add(name)
+            for mname in cls[a]["inc"]:
+                inst_pub |= {x[0] for x in mods[mname]["meths"]}
+            for name, l in cls[a]["cmeths"]:
+                klass.add(name)
+            for mname in cls[a]["ext"]:
+                klass |= {x[0] for x in mods[mname]["meths"]}
+        everything = {m[0] for d in h["classes"] for m in d["imeths"]} | {m[0] for d in h["classes"] for m in d["cmeths"]} | {x[0] for m in h["mods"] for x in m["meths"]}
+        if case["side"] == "inst":
+            lines.append("o_%s." % c.lower())
+            must = inst_pub
+            must_not = everything - inst_all - inst_pub - klass
+        else:
+            lines.append("%s." % c)
+            must = klass
+            must_not = everything - klass - inst_all - inst_pub
+        row = len(lines)
+        lines.append("zz = 1")
+        src = "\n".join(lines) + "\n"
+        key = run.sha(src)
+        labels = ["hier", "side:" + case["side"], "collide" if h.get("coll") else "no-collision"]
+        sb = rt.sandbox()
+        fn = sb.write(src)
+        try:
+            o = rt.runner.run(sb, fn, ["--suggest", "--row=%d" % row])
+        finally:
+            sb.remove(fn)
+        if o.kind != "ok":
+            return Verdict(None, labels, False, key, discard="crash" if o.kind == "crash" else "hang")
+        got = {l[1:].split(":::")[0] for l in o.out.split("\n") if l.startswith("%")}
+        nontrivial = bool(must)
+        missing = sorted(must - got)
+        foreign = sorted(got & must_not)
+        base = {"form": "dot-next", "rkind": "hier-" + case["side"], "cls": c, "bind": True, "program": meta.with_rows(src)}
+        if missing:
+            return Verdict(dict(base, what="generated hierarchy, %s receiver of %s: completion misses %s" % (case["side"], c, missing[:6]), kind="missing", missing=missing[:12]),
+                           labels + ["mismatch"], nontrivial, key)
+        if foreign:
+            return Verdict(dict(base, what="generated hierarchy, %s receiver of %s: completion lists %s which it cannot answer" % (case["side"], c, foreign[:6]), kind="foreign",
+                                foreign=foreign[:12]), labels + ["mismatch"], nontrivial, key)
+        return Verdict(None, labels, nontrivial, key)
+
     def evaluate(self, case, rt):
+        if case.get("kind") == "hier":
+            return self.evaluate_hier(case, rt)
         src, row = self.render(case)
         key = run.sha(src)
         labels = [case["kind"], case["form"], "bind" if case["bind"] else "direct", "cls:" + case["cls"]]
@@ -152,4 +236,11 @@ class Check(Prop):
             if "bind" in params and bool(v.get("bind")) != params["bind"]:
                 return False
             return True
-        return {"c23_shape": m_shape}
+        def m_ext(case, v, params):
+            """Class receiver of a generated hierarchy: every missing name is a method of a module the class (or an ancestor) extends."""
+            if case.get("kind") != "hier" or case.get("side") != "class" or v.get("kind") != "missing":
+                return False
+            h = case["h"]
+            modm = {x[0] for m in h["mods"] for x in m["meths"]}
+            return bool(v.get("missing")) and all(n in modm for n in v["missing"])
+        return {"c23_shape": m_shape, "c23_extended_module": m_ext}
